@@ -96,7 +96,8 @@ def model_specs(
         skeys = draw(N.sensor_names(nsens))
         for key in skeys:
             m = draw(st.integers(*n_readings))
-            rnames = draw(N.ident_lists(m))
+            # a reading named like its sensor's generated struct (name.title()) would collide with the constructor
+            rnames = [r + "_r" if r == key.title() else r for r in draw(N.ident_lists(m))]
             ssyms = state + calib
             # SensorModel.__init__ evaluates every sensor at the all-zero state ("pre-flight"), so an accepted
             # sensor must be defined there: only calibration symbols may be used as positive divisors.
